@@ -17,6 +17,7 @@ pub mod c13;
 pub mod c16;
 pub mod c17;
 pub mod c18;
+pub mod c19;
 pub mod c20;
 pub mod numcommon;
 
@@ -75,6 +76,7 @@ pub fn all() -> Vec<Box<dyn Prop>> {
         Box::new(c16::C16),
         Box::new(c17::C17),
         Box::new(c18::C18),
+        Box::new(c19::C19),
         Box::new(c20::C20),
     ]
 }
